@@ -17,9 +17,10 @@ Definition C01_full_statement : Prop :=
 (* What is proved: under the guards, for every network (any number of nodes, operators, edges, parallel edges, self loops,
    hierarchy levels), every state vector, every parameter assignment and every variable, the mechanism model computes the
    Spec's derivative.  `_partial` for two reasons:
-   (1) guards: guard_d3 is needed by the proof (merge keyed by source node only); guard_names / guard_labels delimit where the
-       MODEL is faithful — it does not model clashes between generated names (`weight`, `x_in0`, `a_v1`) and user names,
-       which make the real code raise or compute something else (D22 and relatives);
+   (1) guards: guard_d3 is needed by the proof (merge keyed by source node only); guard_names / guard_labels / guard_parser
+       delimit where the MODEL is faithful — it does not model clashes between generated names (`weight`, `x_in0`, `a_v1`) and
+       user names, which make the real code raise or compute something else (D22 and relatives), nor the compile-time crash of
+       the expression parser on a sum-substituted input of degree >= 3;
    (2) pipeline: the composition covers grouping, merging, the matrix / indexed forms, the multi-source sum, the wiring of
        producers and edge operator and the recursive evaluation of algebraic variables; NOT covered by a theorem: the
        textual rewrite of whole equations through sympy (only its algebraic effect, C01_substitute_input_term), the
@@ -27,7 +28,7 @@ Definition C01_full_statement : Prop :=
 Theorem C01_partial : forall n, wf n = true -> guard n = true ->
   forall st pa v, deriv_impl n st pa v = deriv n st pa v.
 Proof.
-  exact (fun n _ Hg => deriv_impl_is_deriv n (proj1 (andb_prop _ _ (proj1 (andb_prop _ _ Hg))))).
+  exact (fun n _ Hg => deriv_impl_is_deriv n (proj1 (andb_prop _ _ (proj1 (andb_prop _ _ (proj1 (andb_prop _ _ Hg))))))).
 Qed.
 Print Assumptions C01_partial.
 
